@@ -42,14 +42,14 @@ def oneHot (M d : Nat) : List Bool := (List.replicate M false).set d true
 def log2M (M : Int) : Except Wire.Err Nat :=
   if M < 0 then .error .ValueError else if M = 0 then .error .Other else .ok (Nat.log2 M.toNat)
 
-/-- the order test of HDD, `E == 0` with `E` translated from the source (`M & (M-1)`, see `Gen/Ppm.lean`), on Python
-    ints.  For `M < 0` both operands of the AND are negative, so the AND is negative: false. -/
+/-- the order test of HDD, `not (M < K or not E == 0)` with `K` and `E` translated from the source (`1`, `M & (M-1)`, see
+    `Gen/Ppm.lean`), on Python ints: orders below `K` are refused before `E` is looked at. -/
 def pow2Test (M : Int) : Bool :=
-  if M < 0 then false else Gen.Ppm.pow2ExprHDD M.toNat == 0
+  if M < Gen.Ppm.pow2MinHDD then false else Gen.Ppm.pow2ExprHDD M.toNat == 0
 
-/-- the order test of SDD (its own copy of the expression in the source) -/
+/-- the order test of SDD (its own copy of the statement in the source) -/
 def pow2TestS (M : Int) : Bool :=
-  if M < 0 then false else Gen.Ppm.pow2ExprSDD M.toNat == 0
+  if M < Gen.Ppm.pow2MinSDD then false else Gen.Ppm.pow2ExprSDD M.toNat == 0
 
 /-! ### encoder -/
 
@@ -103,8 +103,7 @@ def hddSyms (M : Nat) (randint : Nat → Nat → Nat) (choice : Nat → List Nat
     symbols (a draw of `randint(M)` is `< M`), so one pass with two call counters is the same computation. -/
 def hddBits (M : Int) (randint : Nat → Nat → Nat) (choice : Nat → List Nat → Nat) (slots : List Bool) :
     Except Wire.Err (List Bool) :=
-  if !pow2Test M then .error .ValueError
-  else if M = 0 then .error .Other           -- `input.size % M`: ZeroDivisionError
+  if !pow2Test M then .error .ValueError      -- includes every `M < 1`
   else if slots.length % M.toNat ≠ 0 then .error .ValueError
   else .ok (hddSyms M.toNat randint choice (chunks M.toNat (slots.length / M.toNat) slots) 0 0).flatten
 
@@ -131,7 +130,7 @@ def slotSums (sps : Nat) (x : List R) : List R :=
 /-- `SDD` on the sample list `signal (+ noise)`, `sps = gv.sps ≥ 1` -/
 def sdd (M : Int) (sps : Nat) (x : List R) : Except Wire.Err (List Bool) :=
   if !pow2TestS M then .error .ValueError
-  else if M.toNat * sps = 0 then .error .Other      -- `input.size % (M*gv.sps)`: ZeroDivisionError
+  else if M.toNat * sps = 0 then .error .Other      -- `input.size % (M*gv.sps)` with `gv.sps = 0`: ZeroDivisionError
   else if x.length % (M.toNat * sps) ≠ 0 then .error .ValueError
   else
     let e := slotSums sps x
